@@ -6,8 +6,9 @@ import cli, clitrace
 STAT = ["PASS", "FAIL", "SKIP"]
 
 
-def tests_yaml(cases, start=0):
+def tests_yaml(cases, start=0, rename=None):
     out = []
+    rename = rename or {}
     for k, c in enumerate(cases):
         out.append("- name: case%d" % (start + k + 1))
         out.append("  input: " + c["text"])
@@ -15,7 +16,7 @@ def tests_yaml(cases, start=0):
         if c["exp"]:
             out.append("    rules:")
             for n, s in c["exp"]:
-                out.append("      %s: %s" % (n, s))
+                out.append("      %s: %s" % (json.dumps(rename[n]) if n in rename else n, s))
         else:
             out.append("    rules: {}")
     return "\n".join(out) + "\n"
@@ -108,22 +109,27 @@ def run_test_cmd(wd, i, c, cases, layout, fmt, events=None, two_files=None):
     base = "t%d" % i
     # every other run with two or more cases keeps them in two test files (read in name order)
     split = (len(cases) + 1) // 2 if (len(cases) >= 2 and (two_files if two_files is not None else i % 2 == 0)) else 0
+    # the implicit default rule is known to `test` as <rules file as given>/default
+    # (single file: the path as given; --dir: the file name without its extension)
+    rename = None
+    if c.get("bare_default"):
+        rename = {"default": "rules/default" if layout == "dir" else os.path.join(wd.path, base, "rules.guard") + "/default"}
     if layout == "dir":
         wd.write("%s/rules.guard" % base, c["rules"])
         if split:
-            wd.write("%s/tests/rules_tests.yaml" % base, tests_yaml(cases[:split]))
-            wd.write("%s/tests/rules_tests_more.yaml" % base, tests_yaml(cases[split:], start=split))
+            wd.write("%s/tests/rules_tests.yaml" % base, tests_yaml(cases[:split], rename=rename))
+            wd.write("%s/tests/rules_tests_more.yaml" % base, tests_yaml(cases[split:], start=split, rename=rename))
         else:
-            wd.write("%s/tests/rules_tests.yaml" % base, tests_yaml(cases))
+            wd.write("%s/tests/rules_tests.yaml" % base, tests_yaml(cases, rename=rename))
         args = ["test", "--dir", os.path.join(wd.path, base)]
     else:
         rp = wd.write("%s/rules.guard" % base, c["rules"])
         if split:
-            wd.write("%s/tdir/rules_tests.yaml" % base, tests_yaml(cases[:split]))
-            wd.write("%s/tdir/rules_tests_more.yaml" % base, tests_yaml(cases[split:], start=split))
+            wd.write("%s/tdir/rules_tests.yaml" % base, tests_yaml(cases[:split], rename=rename))
+            wd.write("%s/tdir/rules_tests_more.yaml" % base, tests_yaml(cases[split:], start=split, rename=rename))
             args = ["test", "-r", rp, "-t", os.path.join(wd.path, base, "tdir"), "-a"]
         else:
-            tp = wd.write("%s/rules_tests.yaml" % base, tests_yaml(cases))
+            tp = wd.write("%s/rules_tests.yaml" % base, tests_yaml(cases, rename=rename))
             args = ["test", "-r", rp, "-t", tp]
     if fmt != "plain":
         args += ["-o", fmt]
@@ -149,6 +155,14 @@ def run_test_cmd(wd, i, c, cases, layout, fmt, events=None, two_files=None):
                 obs["counts"] = LAST_JUNIT_COUNTS
     except (ValueError, KeyError, TypeError):
         obs["wf"] = False
+    # names of the implicit default rule are reported with the file in front
+    for cs_ in obs["cases"]:
+        for key in ("passed", "failed"):
+            for ent in cs_.get(key) or []:
+                if isinstance(ent[0], str) and ent[0].endswith("/default"):
+                    ent[0] = "default"
+        if cs_.get("noexp"):
+            cs_["noexp"] = ["default" if (isinstance(x, str) and x.endswith("/default")) else x for x in cs_["noexp"]]
     return obs, args, so, se
 
 
@@ -168,7 +182,8 @@ def validate_on(wd, i, c, cases):
                     for ch in d["children"]:
                         r = ch["container"].get("RuleCheck")
                         if r:
-                            rules.append([r["name"], r["status"]])
+                            nm = r["name"]
+                            rules.append(["default" if nm.endswith("/default") else nm, r["status"]])
                     ok = True
         except (ValueError, KeyError, TypeError):
             ok = False
@@ -189,7 +204,7 @@ def record(res, tier, tr):
             # every second rules file also observes each of its rules through a reference by name
             clitrace.add_refs(pairs[0::2])
             # every fifth rules file has a rule called `default`
-            clitrace.name_default(pairs[3::5])
+            clitrace.name_default(pairs[1::3], bare=True)
             for k, c in enumerate(pairs):
                 names = sorted({r["n"] for r in c["prog"]["rules"]})
                 ncases = rnd.choice([1, 2, 2, 3, 3, 4])
@@ -237,25 +252,34 @@ def record(res, tier, tr):
                     if rnd.random() < 0.2 and not truthful:
                         exp.append(["no_such_rule", "PASS"])
                     cases.append({"doc": src["doc"], "text": src["text"], "exp": exp, "v": vres[q]})
-                layout = "dir" if (k % 3 == 0) else "single"
-                fmt = fmts[k % 4]
-                evp = os.path.join(wd.path, "events_%d.ndjson" % i)
-                obs, args, so, se = run_test_cmd(wd, i, c, cases, layout, fmt, events=evp, two_files=two_files)
-                with open(tr + ".events", "a") as ef:
-                    ef.write(json.dumps({"e": "begin", "i": i}) + "\n")
-                    if os.path.exists(evp):
-                        ef.write(open(evp).read())
-                        os.remove(evp)
-                    ef.write(json.dumps({"e": "end", "i": i, "ok": True, "check": False, "rules": []}) + "\n")
-                obs["validate"] = [x["v"] for x in cases]
-                if fmt == "junit":
-                    # junit shows neither the rules without expectation nor the evaluated status of passes
-                    for cs_ in obs["cases"]:
-                        cs_["noexp"] = cs_["noexp"] or []
-                line = {"i": i, "prog": c["prog"], "cases": [{"doc": x["doc"], "exp": x["exp"]} for x in cases],
-                        "layout": layout, "fmt": fmt, "obs": obs,
-                        "cmd": {"args": [a.replace(wd.path + "/", "") for a in args], "stderr": se[:500], "stdout_head": so[:400]}}
-                f.write(json.dumps(line) + "\n")
+                # a file with bare clauses (the implicit default rule, named after the rules file as given)
+                # is run in every format and both layouts; the others in one format each
+                runs = [(("dir" if (k % 3 == 0) else "single"), fmts[k % 4])]
+                if c.get("bare_default"):
+                    runs = [("single", x) for x in fmts] + [("dir", fmts[(k + 1) % 4])]
+                    for cs_ in cases:
+                        if not any(e[0] == "default" for e in cs_["exp"]):
+                            cs_["exp"].append(["default", rnd.choice(STAT)])
+                for ri, (layout, fmt) in enumerate(runs):
+                    if ri > 0:
+                        i += 1
+                    evp = os.path.join(wd.path, "events_%d.ndjson" % i)
+                    obs, args, so, se = run_test_cmd(wd, i, c, cases, layout, fmt, events=evp, two_files=two_files)
+                    with open(tr + ".events", "a") as ef:
+                        ef.write(json.dumps({"e": "begin", "i": i}) + "\n")
+                        if os.path.exists(evp):
+                            ef.write(open(evp).read())
+                            os.remove(evp)
+                        ef.write(json.dumps({"e": "end", "i": i, "ok": True, "check": False, "rules": []}) + "\n")
+                    obs["validate"] = [x["v"] for x in cases]
+                    if fmt == "junit":
+                        # junit shows neither the rules without expectation nor the evaluated status of passes
+                        for cs_ in obs["cases"]:
+                            cs_["noexp"] = cs_["noexp"] or []
+                    line = {"i": i, "prog": c["prog"], "cases": [{"doc": x["doc"], "exp": x["exp"]} for x in cases],
+                            "layout": layout, "fmt": fmt, "obs": obs,
+                            "cmd": {"args": [a.replace(wd.path + "/", "") for a in args], "stderr": se[:500], "stdout_head": so[:400]}}
+                    f.write(json.dumps(line) + "\n")
     wd.close()
     return i
 
